@@ -67,6 +67,57 @@ class DetOracles:
         Dn = (Ds - pmin) / diff
         return kn.differences(Dn, cd, cc)[:, 1]
 
+    # ---- the same criteria from their DEFINITIONS, written out by the harness (independent of kneeliverse's own helpers)
+    def mc_ref(self, l, r):
+        pt = np.asarray(self.pts[l:r], float)
+        out = []
+        for i in range(1, len(pt) - 1):
+            (x1, y1), (x2, y2), (x3, y3) = pt[i], pt[i - 1], pt[i + 1]
+            area2 = abs((x2 - x1) * (y3 - y1) - (y2 - y1) * (x3 - x1))
+            sides = math.hypot(x2 - x1, y2 - y1) * math.hypot(x3 - x2, y3 - y2) * math.hypot(x1 - x3, y1 - y3)
+            out.append(2.0 * area2 / sides if sides > 0 else float('nan'))
+        return out
+
+    def errs_ref(self, l, r, ln, fit, cost):
+        """L-method error of every split 2..n-3: residual sum of squares of the two lines (end-point lines or least squares), weighted by the
+        share of the x range each side covers (rss: r*w; rmse: w*sqrt(r*w)), as lmethod.compute_error documents it"""
+        pt = np.asarray(self.pts[l:r][:ln], float)
+        x, y = pt[:, 0], pt[:, 1]
+        length = x[-1] - x[0]
+
+        def rss(xs, ys):
+            if fit == 'bestfit':
+                xc, yc = xs - xs.mean(), ys - ys.mean()
+                sxx = float(np.sum(xc * xc))
+                m = float(np.sum(xc * yc)) / sxx
+                return float(np.sum(np.square(yc - m * xc)))
+            m = (ys[-1] - ys[0]) / (xs[-1] - xs[0])
+            return float(np.sum(np.square(ys - (ys[0] + m * (xs - xs[0])))))
+        out = []
+        for i in range(2, len(x) - 2):
+            wl, wr = (x[i] - x[0]) / length, (x[-1] - x[i]) / length
+            rl, rr = rss(x[:i + 1], y[:i + 1]), rss(x[i:], y[i:])
+            out.append(wl * math.sqrt(rl * wl) + wr * math.sqrt(wr * rr) if cost == 'rmse' else rl * wl + rr * wr)
+        return out
+
+    def dd_ref(self, l, r):
+        pt = np.asarray(self.pts[l:r], float)
+        m = (pt[-1, 1] - pt[0, 1]) / (pt[-1, 0] - pt[0, 0])
+        line = pt[0, 1] + m * (pt[:, 0] - pt[0, 0])
+        vote = float(np.sum(pt[:, 1] - line))
+        if abs(vote) <= 1e-9 * float(np.sum(np.abs(pt[:, 1])) + np.sum(np.abs(line))) or m == 0.0:
+            return None            # concavity vote / direction within rounding of 0: the package's choice is not determined by the definition
+        increasing, clockwise = m > 0.0, vote > 0
+        Ds = self.ema.ema_linear(pt, self.kneedle_t)
+        pmin, pmax = Ds.min(axis=0), Ds.max(axis=0)
+        diff = pmax - pmin
+        diff[diff == 0] = 1.0
+        Dn = (Ds - pmin) / diff
+        X, Y = Dn[:, 0], Dn[:, 1]
+        if not increasing:
+            return (X + Y) if clockwise else (1.0 - (X + Y))
+        return (Y - X) if clockwise else np.abs(Y - X)
+
     def answer(self, name, args):
         a = [int(v) for v in args]
         try:
@@ -80,9 +131,17 @@ class DetOracles:
             return '0'
 
 
+def integral_small(pts):
+    a = np.asarray(pts, float)
+    return bool(len(a) and np.all(np.isfinite(a)) and np.all(a == np.floor(a)) and np.max(np.abs(a)) < 2 ** 20)
+
+
 def real_knee(kind, pts, opts):
     m = mods()[kind]
     n = len(pts)
+    if opts.get('int_dtype'):
+        # the same curve as an integer-dtype array; the criterion oracles stay on the float64 copy
+        pts = np.asarray(pts).astype(np.int64)
 
     def call():
         if kind == 'lmethod':
@@ -106,9 +165,11 @@ def model_knee(ctx, kind, pts, opts):
     return (None if out[0] == 'none' else int(out[0])), orc
 
 
-def real_multi(kind, pts, t1, t2):
+def real_multi(kind, pts, t1, t2, int_dtype=False):
     m = mods()[kind]
     n = len(pts)
+    if int_dtype:
+        pts = np.asarray(pts).astype(np.int64)
     return core.guarded(lambda: m.multi_knee(pts, t1, t2), 64 * (2 * n + 2) * (n + 8) + 1024)
 
 
